@@ -99,17 +99,38 @@ def execute(event, state, requestor, alt):
         def ready(self):
             return False
 
-    class Artim:
-        expired = False
+    from pynetdicom.timer import Timer
+
+    class Artim(Timer):
+        """The REAL timer class (never started before the action, as on a requestor), recording what an action does to
+        it by its effect: `artimStart` / `artimRestart` only if the timer is running afterwards, counted from now."""
+
+        def __init__(self):
+            super().__init__(3600)
+
+        def _fresh(self, before):
+            return self._start_time is not None and self._end_time is None and self._start_time is not before
+
+        _nested = False
 
         def start(self):
-            rec.add("artimStart")
+            before = self._start_time
+            super().start()
+            if not self._nested:  # Timer.restart() is implemented through start(): one effect, not two
+                rec.add("artimStart" if self._fresh(before) else "artimStartWithoutEffect")
 
         def stop(self):
-            rec.add("artimStop")
+            super().stop()
+            rec.add("artimStop" if self._end_time is not None else "artimStopWithoutEffect")
 
         def restart(self):
-            rec.add("artimRestart")
+            before = self._start_time
+            self._nested = True
+            try:
+                super().restart()
+            finally:
+                self._nested = False
+            rec.add("artimRestart" if self._fresh(before) else "artimRestartWithoutEffect")
 
     class UserQ(queue.Queue):
         def put(self, p, *a, **k):
